@@ -42,10 +42,24 @@ def normH(H):
     sg = H.get("sig")
     if sg is None: sg = {"fixed": 0, "va": True, "kwo": [], "vk": True}
     elif isinstance(sg, list): sg = {"fixed": 0, "va": True, "kwo": list(sg), "vk": False}
-    return {"det": H.get("det"), "sig": sg, "check": bool(H.get("check")), "ann": H.get("ann"), "beh": H["beh"]}
+    opts = H.get("opts")
+    if "opts" not in H and H.get("det") is not None: opts = {"details_arg": H["det"]}      # legacy form
+    return {"opts": opts, "sig": sg, "check": bool(H.get("check")), "ann": H.get("ann"), "beh": H["beh"]}
 
 
-def coq_handler(H, obj):
+MATCH = {None: "None", "exact": "(Some MExact)", "prefix": "(Some MPrefix)", "wildcard": "(Some MWildcard)"}
+
+
+def coq_subopts(o):
+    return (f"(Opts {optb(o.get('details'))} {optn(o.get('details_arg'))} {MATCH[o.get('match')]} "
+            f"{optb(o.get('get_retained'))})")
+
+
+def coq_opts(o):
+    return "None" if o is None else f"(Some {coq_subopts(o)})"
+
+
+def coq_hspec(H):
     H = normH(H)
     sg = H["sig"]
     sig = (f"(Sig {sg['fixed']} {'true' if sg['va'] else 'false'} {olist(str(k) for k in sg['kwo'])} "
@@ -54,27 +68,53 @@ def coq_handler(H, obj):
     chk = "true" if H["check"] else "false"
     b = H["beh"]
     beh = "BReturn" if b[0] == "ret" else f"(BRaise {b[1]})" if b[0] == "raise" else f"(BUnsub {olist(str(t) for t in b[1])})"
-    return f"(H {'true' if obj else 'false'} {optn(H['det'])} {sig} {chk} {ann} {beh})"
+    return f"(HS {sig} {chk} {ann} {beh})"
 
 
 def coq_kwargs_pub(kw):
     return olist(f"({int(k)}, KInt {zlit(v)})" for k, v in sorted(kw.items(), key=lambda p: int(p[0])))
 
 
+def coq_event(e):
+    return (f"(Ev {e['sub']} {e['pub']} {olist(zlit(a) for a in e['args'])} {coq_kwargs_pub(e['kwargs'])} "
+            f"{optn(e.get('publisher'))} {optn(e.get('topic'))} {optb(e.get('retained'))})")
+
+
+def coq_msg(m):
+    k = m[0]
+    if k == "subscribed": return f"MsgSubscribed {m[1]} {m[2]}"
+    if k == "unsubscribed": return f"MsgUnsubscribed {m[1]}"
+    if k == "revoked": return f"MsgRevoked {m[1]}"
+    if k == "error": return f"MsgError {m[1]} {m[2]} {m[3]}"
+    if k == "event": return f"MsgEvent {coq_event(m[1])}"
+    raise ValueError(k)
+
+
+def inline_of(op):
+    """messages delivered from inside transport.send(), flattened in delivery order"""
+    k = op[0]
+    if k == "sub": return list(op[3]) if len(op) > 3 and op[3] else []
+    if k == "unsub": return list(op[2]) if len(op) > 2 and op[2] else []
+    if k == "subobj": return [m for me in op[1] for m in (me[2] if len(me) > 2 and me[2] else [])]
+    return []
+
+
 def coq_op(op):
     k = op[0]
-    if k == "sub": return f"OpSubscribe {coq_handler(op[1], False)} {op[2]}"
-    if k == "subobj": return "OpSubscribeObj " + olist(f"({coq_handler(H, True)}, {t})" for H, t in op[1])
-    if k == "unsub": return f"OpUnsubscribe {op[1]}"
+    if k == "sub":
+        return (f"OpSubscribe {coq_hspec(op[1])} {coq_opts(normH(op[1])['opts'])} {op[2]} "
+                f"{olist(coq_msg(m) for m in inline_of(op))}")
+    if k == "subobj":
+        ms = olist(f"({coq_hspec(me[0])}, {coq_opts(normH(me[0])['opts'])}, {me[1]}, "
+                   f"{olist(coq_msg(m) for m in (me[2] if len(me) > 2 and me[2] else []))})" for me in op[1])
+        return f"OpSubscribeObj {ms} {coq_opts(op[2] if len(op) > 2 else None)}"
+    if k == "unsub": return f"OpUnsubscribe {op[1]} {olist(coq_msg(m) for m in inline_of(op))}"
     if k == "subscribed": return f"OpSubscribed {op[1]} {op[2]}"
     if k == "unsubscribed": return f"OpUnsubscribed {op[1]}"
     if k == "revoked": return f"OpRevoked {op[1]}"
     if k == "error": return f"OpError {op[1]} {op[2]} {op[3]}"
     if k == "lose": return "OpLose"
-    if k == "event":
-        e = op[1]
-        return (f"OpEvent (Ev {e['sub']} {e['pub']} {olist(zlit(a) for a in e['args'])} {coq_kwargs_pub(e['kwargs'])} "
-                f"{optn(e.get('publisher'))} {optn(e.get('topic'))} {optb(e.get('retained'))})")
+    if k == "event": return f"OpEvent {coq_event(op[1])}"
     raise ValueError(k)
 
 
@@ -98,7 +138,9 @@ def coq_out(o):
     t = o[0]
     try:
         if t == "sent":
-            if o[1] == "sub": return f"OSent (MSubscribe {o[2]} {o[3]})"
+            if o[1] == "sub":
+                if o[4] not in MATCH or o[5] not in (None, True, False): return NEVER
+                return f"OSent (MSubscribe {o[2]} {o[3]} {MATCH[o[4]]} {optb(o[5])})"
             if o[1] == "unsub": return f"OSent (MUnsubscribe {o[2]} {o[3]})"
             return NEVER
         if t == "invoke":
@@ -136,7 +178,7 @@ def coq_out(o):
 
 def coq_case(fw, ops, outs):
     return (f"({0 if fw == 'tx' else 1}, {olist(coq_op(o) for o in ops)}, "
-            f"{olist(olist(coq_out(x) for x in per) for per in outs)})")
+            f"{olist(olist(coq_out(x) for x in per if x[0] != 'mark') for per in outs)})")
 
 
 # ----------------------------------------------------------------------------------------- generator
@@ -163,10 +205,20 @@ class GenSim:
     def apply(self, op):
         k = op[0]
         if self.lost: return
-        if k == "sub": self.sub(op[1], op[2])
+        if k == "sub":
+            if opts_invalid(normH(op[1])["opts"]): return
+            self.sub(op[1], op[2])
+            for m in inline_of(op): self.apply(m)
         elif k == "subobj":
-            for H, t in op[1]: self.sub(H, t)
-        elif k == "unsub": self.unsub(op[1])
+            if opts_invalid(op[2] if len(op) > 2 else None) or any(opts_invalid(normH(me[0])["opts"]) for me in op[1]): return
+            for me in op[1]:
+                self.sub(me[0], me[1])
+                for m in (me[2] if len(me) > 2 and me[2] else []): self.apply(m)
+        elif k == "unsub":
+            n0 = self.next
+            self.unsub(op[1])
+            if self.next > n0:
+                for m in inline_of(op): self.apply(m)
         elif k == "subscribed" and op[1] in self.pend:
             H, t = self.pend.pop(op[1])
             self.att.setdefault(op[2], []).append(op[1]); self.objs[op[1]] = [op[2], True, H]; self.held.add(op[2])
@@ -184,8 +236,37 @@ class GenSim:
             self.lost = True; self.pend.clear(); self.upend.clear()
 
 
-def gen_handler(rng, sim, self_label):
-    det = rng.choices([None, 3, 4, 0], [50, 32, 10, 8])[0]
+def opts_invalid(o):
+    """SubscribeOptions asserts: a details flag excludes details_arg"""
+    return o is not None and o.get("details") is not None and o.get("details_arg") is not None
+
+
+def requested(o):
+    """SPEC (documentation of SubscribeOptions): which keyword, if any, the application asked the details under"""
+    if o is None: return None
+    if o.get("details") is True: return KEYS.index("details")
+    if o.get("details") is False: return None
+    return o.get("details_arg")
+
+
+def gen_opts(rng):
+    """every way of (not) requesting details, alone or combined with match / get_retained"""
+    r = rng.random()
+    if r < 0.28: return None
+    if r < 0.36: o = {}
+    elif r < 0.50: o = {"details": False}
+    elif r < 0.64: o = {"details": True}
+    elif r < 0.97: o = {"details_arg": rng.choices([3, 4, 0], [60, 25, 15])[0]}
+    else: o = {"details": rng.random() < 0.5, "details_arg": 3}                    # invalid: the constructor raises
+    if rng.random() < 0.25: o["match"] = rng.choice(("exact", "prefix", "wildcard"))
+    if rng.random() < 0.15: o["get_retained"] = rng.random() < 0.5
+    return {"details": o.get("details"), "details_arg": o.get("details_arg"), "match": o.get("match"),
+            "get_retained": o.get("get_retained")}
+
+
+def gen_handler(rng, sim, self_label, eff_opts=None, own=True):
+    opts = gen_opts(rng) if own else None
+    det = requested(opts if opts is not None else eff_opts)
     r = rng.random()
     if r < 0.5:
         sig = {"fixed": 0, "va": True, "kwo": [], "vk": True}                     # *args, **kw
@@ -205,7 +286,7 @@ def gen_handler(rng, sim, self_label):
     else:
         pool = [self_label] * 3 + list(sim.objs) + list(sim.pend)
         beh = ["unsub", sorted(set(rng.choice(pool) for _ in range(rng.choice((1, 1, 2)))))]
-    return {"det": det, "sig": sig, "check": check, "ann": ann, "beh": beh}
+    return {"opts": opts, "sig": sig, "check": check, "ann": ann, "beh": beh}
 
 
 def gen_event(rng, sim):
@@ -229,6 +310,31 @@ def gen_event(rng, sim):
             "retained": rng.choice((None, None, True, False))}
 
 
+def gen_inline_sub(rng, sim, rid, topic, may_event, p=0.25):
+    """what a loopback transport delivers from inside the send() of this SUBSCRIBE (at most one EVENT per operation)"""
+    if rng.random() >= p: return []
+    r = rng.random()
+    sid = 70 + topic if rng.random() < 0.9 else rng.choice((70, 71, 72))
+    if r < 0.12: return [["error", 32, rid, rng.randrange(1, 4)]]
+    ms = [["subscribed", rid, sid]]
+    if may_event[0] and rng.random() < 0.6:
+        e = gen_event(rng, sim); e["sub"] = sid if rng.random() < 0.9 else e["sub"]
+        ms.append(["event", e]); may_event[0] = False
+    if rng.random() < 0.1: ms.append(["subscribed", rid, sid])           # duplicate reply: protocol violation
+    return ms
+
+
+def gen_inline_unsub(rng, sim, lab):
+    if rng.random() >= 0.3: return []
+    o = sim.objs.get(lab)
+    ms = []
+    if o and rng.random() < 0.4:
+        e = gen_event(rng, sim); e["sub"] = o[0]
+        ms.append(["event", e])                                           # racing event, inside the send of UNSUBSCRIBE
+    ms.append(["unsubscribed", sim.next + 1] if rng.random() < 0.85 else ["error", 34, sim.next + 1, rng.randrange(1, 4)])
+    return ms
+
+
 def gen_history(rng, maxlen):
     """State-dependent weights: build up several handlers per id, keep requests pending, then mix events with removals."""
     sim, ops = GenSim(), []
@@ -248,10 +354,19 @@ def gen_history(rng, maxlen):
             w = {"sub": 1, "event": 1, "unsub": 1 if sim.objs else 0, "bogus": 1, "lose": 0.3, "subobj": 0.3}
         k = rng.choices(list(w), list(w.values()))[0]
         if k == "sub":
-            op = ["sub", gen_handler(rng, sim, sim.next + 1), rng.choice((1, 1, 1, 2))]
+            t = rng.choice((1, 1, 1, 2))
+            op = ["sub", gen_handler(rng, sim, sim.next + 1), t, gen_inline_sub(rng, sim, sim.next + 1, t, [True])]
         elif k == "subobj":
             m = rng.choice((2, 2, 1, 3))
-            op = ["subobj", [[gen_handler(rng, sim, sim.next + 1 + i), rng.choice((1, 1, 2))] for i in range(m)]]
+            call = gen_opts(rng) if rng.random() < 0.4 else None
+            may_event = [True]
+            ms = []
+            for i in range(m):
+                t = rng.choice((1, 1, 2))
+                own = rng.random() < 0.6
+                ms.append([gen_handler(rng, sim, sim.next + 1 + i, eff_opts=call, own=own), t,
+                           gen_inline_sub(rng, sim, sim.next + 1 + i, t, may_event, p=0.15)])
+            op = ["subobj", ms, call]
         elif k == "reply":
             req = rng.choice(list(sim.pend))
             if rng.random() < 0.1:
@@ -264,6 +379,7 @@ def gen_history(rng, maxlen):
         elif k == "unsub":
             pool = list(sim.objs)
             op = ["unsub", rng.choice(active) if active and rng.random() < 0.85 else rng.choice(pool)] if pool else ["unsub", sim.next + 1]
+            op.append(gen_inline_unsub(rng, sim, op[1]))
         elif k == "ureply":
             req = rng.choice(list(sim.upend))
             op = ["unsubscribed", req] if rng.random() < 0.85 else ["error", 34, req, rng.randrange(1, 4)]
@@ -272,7 +388,7 @@ def gen_history(rng, maxlen):
         elif k == "bogus":
             op = rng.choice((["subscribed", sim.next + 3, 71], ["subscribed", 1, 71], ["unsubscribed", sim.next + 2],
                              ["unsubscribed", 1], ["error", 34, 1, 1], ["error", 48, 1, 2], ["error", 32, sim.next + 1, 1],
-                             ["unsub", sim.next + 1]))
+                             ["unsub", sim.next + 1, []]))
         else:
             op = ["lose"]
         ops.append(op)
@@ -283,7 +399,7 @@ def gen_history(rng, maxlen):
 # ----------------------------------------------------------------------------------------- property oracle
 def expected_kwargs(H, label, sid, topic, ev):
     kw = {KEYS[int(k)]: v for k, v in ev["kwargs"].items()}
-    if H["det"] is not None:
+    if H["det"] is not None:          # H["det"] = requested(effective options), set by the oracle
         kw[KEYS[H["det"]]] = {"$det": {"owner": label, "sub": sid, "pub": ev["pub"], "publisher": ev.get("publisher"),
                                        "topic": ev["topic"] if ev.get("topic") is not None else topic,
                                        "retained": ev.get("retained")}}
@@ -326,7 +442,39 @@ class Oracle:
             outs_unsub_expect.append(sid)
 
     def step(self, i, op, outs):
+        """one operation; messages delivered from inside send() are judged as if they had arrived right after the
+        call (that is what recording the request before sending is for), using the driver's segment marks"""
+        msgs = inline_of(op)
+        if not msgs and not any(o[0] == "mark" for o in outs):
+            return self.step_one(i, op, outs)
+        segs, cur = {"api": []}, "api"
+        for o in outs:
+            if o[0] == "mark":
+                cur = "api" if o[1] == "end" else o[1]
+                segs.setdefault(cur, [])
+            else:
+                segs[cur].append(o)
+        n_ev = sum(1 for m in msgs if m[0] == "event")
+        api = segs["api"]
+        late = [o for o in api if o[0] in ("invoke", "usererror")]          # asyncio: what the loop ran after the call
+        base = [o for o in api if o[0] not in ("invoke", "usererror", "done")]
+        if len(op) and op[0] == "sub": op0 = op[:3]
+        elif op[0] == "unsub": op0 = op[:2]
+        else: op0 = ["subobj", [me[:2] for me in op[1]]] + ([op[2]] if len(op) > 2 else [])
+        self.step_one(i, op0, base)
+        for j, m in enumerate(msgs):
+            seg = segs.get(j)
+            if seg is None:
+                continue                  # the send it was scripted for never happened
+            if m[0] == "event" and n_ev == 1: seg = seg + late
+            self.step_one(f"{i}/inside-send[{j}]", m, seg, reentrant=True)
+        if n_ev != 1 and late and not any(m[0] == "event" for m in msgs):
+            self.flag("handler-invoked-outside-EVENT", f"op {i}: {late}")
+        self.step_one(i, ["noop"], [o for o in api if o[0] == "done"])
+
+    def step_one(self, i, op, outs, reentrant=False):
         k = op[0]
+        R = "/reentrant" if reentrant else ""
         sent_sub = [o for o in outs if o[0] == "sent" and o[1] == "sub"]
         sent_unsub = [o for o in outs if o[0] == "sent" and o[1] == "unsub"]
         invokes = [o for o in outs if o[0] == "invoke"]
@@ -334,26 +482,48 @@ class Oracle:
         expect_unsub = []
         where = f"op {i} {k}"
         if k in ("sub", "subobj") and not self.lost:
-            specs = [(normH(op[1]), op[2], False)] if k == "sub" else [(normH(H), t, True) for H, t in op[1]]
-            if len(sent_sub) != len(specs):
+            if k == "sub":
+                specs = [(normH(op[1]), op[2], False, normH(op[1])["opts"])]
+            else:
+                call = op[2] if len(op) > 2 else None
+                specs = []
+                for me in op[1]:
+                    H = normH(me[0])
+                    eff = H["opts"] if H["opts"] is not None else (call if call is not None else {"match": "exact"})
+                    specs.append((H, me[1], True, eff))
+            bad_opts = any(opts_invalid(sp[3]) for sp in specs) or (k == "subobj" and opts_invalid(op[2] if len(op) > 2 else None))
+            if bad_opts:
+                if sent_sub: self.flag("session.subscribe/sent-with-invalid-options", f"{where}: SUBSCRIBE sent although SubscribeOptions is invalid")
+                specs = []
+            elif len(sent_sub) != len(specs):
                 self.flag("session.subscribe/SUBSCRIBE-count", f"{where}: {len(sent_sub)} SUBSCRIBE sent for {len(specs)} handlers")
             for o, sp in zip(sent_sub, specs):
-                if o[3] != sp[1]: self.flag("session.subscribe/topic", f"{where}: SUBSCRIBE for topic {o[3]}, asked {sp[1]}")
-                self.pend[o[2]] = sp
+                H, t, wo, eff = sp
+                if o[3] != t: self.flag("session.subscribe/topic", f"{where}: SUBSCRIBE for topic {o[3]}, asked {t}")
+                want_m = None if eff is None or eff.get("match") in (None, "exact") else eff["match"]
+                want_r = None if eff is None else eff.get("get_retained")
+                if (o[4], o[5]) != (want_m, want_r):
+                    self.flag("session.subscribe/options-on-wire", f"{where}: SUBSCRIBE options match={o[4]} get_retained={o[5]}, "
+                              f"asked match={want_m} get_retained={want_r}")
+                H = dict(H, det=requested(eff))          # the details the application REQUESTED (specification, not the code)
+                self.pend[o[2]] = (H, t, wo)
         elif k == "subscribed" and not self.lost:
             if op[1] in self.pend:
                 H, t, wo = self.pend.pop(op[1])
                 self.info[op[1]] = dict(H=H, topic=t, sid=op[2], obj=wo, held=False)
                 self.att.setdefault(op[2], []).append(op[1])
                 self.ever.add(op[2])
-                if raised: self.flag("session.onMessage/Subscribed/raised", f"{where}: {raised}")
+                if raised: self.flag("session.onMessage/Subscribed/raised" + R, f"{where}: SUBSCRIBED for a pending request: {raised}")
         elif k == "error" and not self.lost:
+            known = (op[1] == 32 and op[2] in self.pend) or (op[1] == 34 and op[2] in self.upend)
+            if known and raised: self.flag("session.onMessage/Error/raised" + R, f"{where}: ERROR for a pending request: {raised}")
             if op[1] == 32: self.pend.pop(op[2], None)
             if op[1] == 34: self.upend.pop(op[2], None)
         elif k == "unsubscribed" and not self.lost:
             if op[1] in self.upend:
                 sid = self.upend.pop(op[1])
                 for l in self.att.pop(sid, []): self.dead.add(l)
+                if raised: self.flag("session.onMessage/Unsubscribed/raised" + R, f"{where}: UNSUBSCRIBED for a pending request: {raised}")
         elif k == "unsub":
             lab = op[1]
             if lab in self.info and self.info[lab]["held"] and not self.lost:
@@ -380,7 +550,9 @@ class Oracle:
                 if invokes: self.flag(self.P + "unknown-id/handler-invoked", f"{where}: handler invoked for id {sid} never held")
                 if not any(r[1][0] == "ProtocolError" for r in raised):
                     self.flag(self.P + "unknown-id/no-ProtocolError", f"{where}: EVENT for id {sid} the session never held was not rejected")
-        if k not in ("event",) and invokes:
+        if k == "noop":
+            pass
+        elif k not in ("event",) and invokes:
             self.flag("handler-invoked-outside-EVENT", f"{where}: {invokes}")
         # UNSUBSCRIBE exactly when the last handler of an id is removed
         got = sorted(o[3] for o in sent_unsub)
